@@ -385,6 +385,49 @@ def _twin_signature(f):
     return +sig
 
 
+SHARED_WORDS = {
+    "wfs": ("__cds_wfs_stack.head", "cds_wfs_node.next"),
+    "lfs": ("__cds_lfs_stack.head", "cds_lfs_node.next"),
+    "wfcq": ("cds_wfcq_node.next", "cds_wfcq_tail.p"),
+    "wfq": ("cds_wfq_queue.head", "cds_wfq_queue.tail", "cds_wfq_node.next"),
+    "lfq": ("cds_lfq_queue_rcu.head", "cds_lfq_queue_rcu.tail", "cds_lfq_node_rcu.next"),
+}
+# plain reads of a shared word that are correct, one reason each (matched on the source function the load comes from)
+PLAIN_READ_OK = {
+    ("_cds_lfq_destroy_rcu", "cds_lfq_node_rcu.next"): "teardown: the caller guarantees no concurrent user",
+    ("___cds_wfq_dequeue_blocking", "cds_wfq_queue.head"): "the legacy queue's head is owned by the holder of the dequeue lock",
+    ("_cds_wfs_push", "cds_wfs_node.next"): "assertion on the pusher's own node before it is published",
+}
+
+
+def rule_sharedread(ctx, rep, rid, families):
+    """The words other threads write concurrently (stack head, queue head / tail, node->next) are read through CMM_LOAD_SHARED / uatomic_load /
+    rcu_dereference in every API function - in the IR a volatile or atomic load, never a plain one.  The functions are static-inline twins
+    compiled into optimised callers: a plain read in a poll loop (`while (cds_wfs_empty(&s))`, a dequeue retry on an empty queue) is hoisted out
+    of the loop by gcc -O2 and the caller never sees the push / enqueue that has long returned."""
+    m = ctx.mod("cds", "flat")
+    fields = set(x for k in families for x in SHARED_WORDS[k])
+    n, bad, seen = 0, [], set()
+    for f in m.defined():
+        for l in f.all_insts():
+            if l.op != "load" or not l.d.get("ap"):
+                continue
+            lf = pat.last_field(l.d["ap"])
+            if lf not in fields:
+                continue
+            rep.touch(f)
+            n += 1
+            seen.add(lf)
+            if l.d["order"] == "na" and (l.origin_fn, lf) not in PLAIN_READ_OK and (f.name, lf) not in PLAIN_READ_OK:
+                bad.append((f, l, lf))
+    pat.require(n >= 3 * len(families), "%s: only %d reads of the shared words found" % (rid, n))
+    for lf in sorted(fields & seen):
+        b = [(f, l) for f, l, x in bad if x == lf]
+        rep.check(not b, rid, "volatile-read." + lf, "every read of %s is a volatile / atomic load (frozen exceptions: %d)" % (lf, len([k for k in PLAIN_READ_OK if k[1] == lf])),
+                  "%s is read with a plain load in %s: inlined into an optimised caller the read is hoisted out of a polling loop / merged with an earlier one - "
+                  "the caller keeps seeing the old value after the concurrent update has returned" % (lf, sorted(set(l.origin_fn or f.name for f, l in b))[:3]), [l.where() for f, l in b[:3]])
+
+
 def rule_wrappers(ctx, rep, rid, families):
     """the exported (non-LGPL) entry points of the queues / stacks against their static-inline twins (witness/wrappers.c, the
     code _LGPL_SOURCE users get): the flattened library symbol performs the same writes and the same external / indirect calls
@@ -610,5 +653,6 @@ RULES = [
     ("C10.exported", lambda c, r: rule_wrappers(c, r, "C10.exported", ("wfcq", "wfq"))),
     ("C10.init", lambda c, r: rule_inits(c, r, "C10.init", ("cds_wfcq_node_init", "cds_wfcq_init", "__cds_wfcq_init", "cds_wfq_node_init", "cds_wfq_init"))),
     ("C10.wfq", rule_wfq_legacy),
+    ("C10.sharedread", lambda c, r: rule_sharedread(c, r, "C10.sharedread", ("wfcq", "wfq"))),
 ]
 FLOORS = {}
